@@ -144,4 +144,82 @@ def c04(ctx):
                            "distinct = distinct branch paths")
 
 
-PROPS = {"C01": c01, "C02": c02, "C03": c03, "C04": c04}
+def _run_rel(ctx, invs, ck, cfgs, what, backends=("py", "shim")):
+    for c in cfgs:
+        extra = {"_shifts": [k - 5 for k in c.pop("_shiftsp", [2, 7])], "_scales": c.pop("_scales", [3]),
+                 "_mrtsq": c.pop("_mrtsq"), "_tauq": c.pop("_tauq")}
+        c = _neg(c)
+        c.update(MRTSQ=tla_set(extra["_mrtsq"]), TauQ=tla_set(extra["_tauq"]),
+                 ShiftsP=tla_set([k + 5 for k in extra["_shifts"]]), Scales=tla_set(extra["_scales"]))
+        res = run_tlc("Relations", c, invs + ["Export"], workers=16, timeout=6000)
+        ctx.add_tlc(res, what)
+        if res.violated:
+            continue
+        for r in res.exports[1:3]:
+            ctx.sample(r)
+        for r in res.exports:
+            r.update(extra)
+            ctx.count_path("%d/%d/%s/%s/%s" % (len(r["a"]), len(r["b"]), r["mrts"], r["mtau"], r["ri"]))
+        replay.run(ctx, ck, res.exports, backends=backends, chunk=150)
+
+
+def c07(ctx):
+    """range, symmetry, identity"""
+    if ctx.tier == QUICK:
+        cfgs = [dict(TS=0, TE=5, MaxSp=6, RISet="{FALSE, TRUE}", _mrtsq=[0, 10], _tauq=[0, 4])]
+    else:
+        cfgs = [dict(TS=0, TE=6, MaxSp=7, RISet="{FALSE, TRUE}", _mrtsq=[0, 6, 16], _tauq=[0, 2, 6]),
+                dict(TS=-2, TE=7, MaxSp=3, RISet="{FALSE, TRUE}", _mrtsq=[0, 10], _tauq=[0, 4])]
+    _run_rel(ctx, ["Symmetric", "Identity", "InRange"], "rel_c07", cfgs,
+             "definitions are symmetric, zero / one on identical trains, in range")
+    ctx.assumptions += ["relations model-checked on the declarative definitions (Relations.tla); scan = definition is C01-C04",
+                        "code compared with itself (swap, self, copy) and against the range; tolerance 1e-10"]
+    return ctx.finish(rule="every ordered pair of trains x MRTS x RI x max_tau; one case = one TLC state of Relations; "
+                           "distinct = distinct (spike counts, keyword) classes")
+
+
+def c08(ctx):
+    """shift / scale invariance, mirror symmetry"""
+    if ctx.tier == QUICK:
+        cfgs = [dict(TS=0, TE=5, MaxSp=6, RISet="{FALSE}", _mrtsq=[0, 10], _tauq=[0, 4], _shiftsp=[2, 7], _scales=[3]),
+                dict(TS=0, TE=5, MaxSp=2, RISet="{TRUE}", _mrtsq=[6], _tauq=[2], _shiftsp=[4], _scales=[2])]
+    else:
+        cfgs = [dict(TS=0, TE=6, MaxSp=7, RISet="{FALSE, TRUE}", _mrtsq=[0, 10], _tauq=[0, 4], _shiftsp=[2, 7], _scales=[3]),
+                dict(TS=-2, TE=7, MaxSp=3, RISet="{FALSE, TRUE}", _mrtsq=[0, 6], _tauq=[0, 6], _shiftsp=[0, 6], _scales=[2, 5])]
+    _run_rel(ctx, ["ShiftInv", "ScaleInv", "MirrorSym"], "rel_c08", cfgs,
+             "definitions commute with shift / scale / mirror of the time axis")
+    ctx.assumptions += ["integer shifts and scale factors on the spec side; the code is additionally run with dyadic factors 1/2, 1/4 and a shift of 1/2 (exact in floats)"]
+    return ctx.finish(rule="every ordered pair of trains x keywords x {2 shifts, scale, 1/2, 1/4, shift 1/2, mirror}; "
+                           "one case = one TLC state of Relations")
+
+
+def c15(ctx):
+    """MRTS monotone, no-op below all ISIs, 'auto' = pooled ISI threshold (bivariate part)"""
+    if ctx.tier == QUICK:
+        cfgs = [dict(TS=0, TE=5, MaxSp=6, RISet="{FALSE}", _mrtsq=[0, 2, 6, 10, 30], _tauq=[0]),
+                dict(TS=0, TE=5, MaxSp=3, RISet="{TRUE}", _mrtsq=[0, 3, 12], _tauq=[4])]
+    else:
+        cfgs = [dict(TS=0, TE=6, MaxSp=7, RISet="{FALSE, TRUE}", _mrtsq=[0, 2, 6, 10, 30], _tauq=[0]),
+                dict(TS=-2, TE=7, MaxSp=3, RISet="{FALSE, TRUE}", _mrtsq=[0, 3, 8, 12, 40], _tauq=[0, 4])]
+    _run_rel(ctx, ["ZeroIsPlain", "Monotone", "BelowAllIsNoOp"], "rel_c15", cfgs,
+             "definitions: MRTS=0 is the plain measure, values monotone in MRTS, no-op below all ISIs")
+    ctx.assumptions += ["the irrational automatic threshold is compared as a double with sqrt of the exact pooled mean square"]
+    return ctx.finish(rule="every ordered pair of trains x ordered pairs MRTS1 <= MRTS2 from the configured set; "
+                           "one case = one TLC state of Relations")
+
+
+def c16(ctx):
+    """max_tau is an upper bound on the coincidence window"""
+    if ctx.tier == QUICK:
+        cfgs = [dict(TS=0, TE=5, MaxSp=6, RISet="{FALSE}", _mrtsq=[0, 12], _tauq=[0, 2, 4, 8]),
+                dict(TS=0, TE=7, MaxSp=3, RISet="{FALSE}", _mrtsq=[0, 24], _tauq=[0, 2, 6])]
+    else:
+        cfgs = [dict(TS=0, TE=6, MaxSp=7, RISet="{FALSE}", _mrtsq=[0, 12, 28], _tauq=[0, 2, 4, 8]),
+                dict(TS=0, TE=9, MaxSp=3, RISet="{FALSE}", _mrtsq=[0, 8, 24], _tauq=[0, 2, 3, 6, 10])]
+    _run_rel(ctx, ["TauBounded", "CoincGrowsWithTau"], "rel_c16", cfgs,
+             "definitions: no coincidence at distance >= max_tau; None = 0; growing max_tau keeps coincidences")
+    return ctx.finish(rule="every ordered pair of trains x MRTS x ordered pairs max_tau1 <= max_tau2; "
+                           "one case = one TLC state of Relations")
+
+
+PROPS = {"C01": c01, "C02": c02, "C03": c03, "C04": c04, "C07": c07, "C08": c08, "C15": c15, "C16": c16}
